@@ -10,6 +10,11 @@ import (
 	"sync"
 )
 
+// CounterOnlyFields lists "pkgpath.Type.field" of integer struct fields that
+// library code only ever increments or returns from a getter (filled in by a
+// generated file, see instr's writeCounterFields).
+var CounterOnlyFields map[string]bool
+
 // YieldHook, when set, is called at every instrumented scheduling point.
 var YieldHook func(site int)
 
